@@ -23,6 +23,9 @@ type ScenarioStats struct {
 	Complete    bool           `json:"complete"`
 	Mode        string         `json:"mode,omitempty"`
 	Sharded     bool           `json:"sharded"`
+	XStates     int64          `json:"x_states"`
+	XTrans      int64          `json:"x_transitions"`
+	Incomplete  string         `json:"incomplete,omitempty"`
 }
 
 type workerResult struct {
@@ -49,8 +52,11 @@ type execResult struct {
 }
 
 // runOne executes one execution of sc with the given prefix on a fresh goroutine.
+var runDeadline time.Time
+
 func runOne(sc *Scenario, tier string, prefix, expAr []int, rec bool) *X {
 	x := newX(sc, tier, prefix, expAr, rec)
+	x.deadline = runDeadline
 	done := make(chan struct{})
 	body := func() {
 		completed := false
@@ -135,6 +141,7 @@ func (e *explorer) explore(sc *Scenario) *ScenarioStats {
 	} else {
 		st.Mode = "sequential choice tree"
 	}
+	runDeadline = e.deadline
 	d := sc.SplitDepth
 	if d == 0 {
 		d = 2
@@ -206,6 +213,22 @@ func (e *explorer) explore(sc *Scenario) *ScenarioStats {
 					for _, t := range x.tags {
 						st.Tags[t]++
 					}
+					for t, c := range x.counts {
+						st.Tags[t] += c
+					}
+					if x.incompl != "" {
+						st.Incomplete = x.incompl
+					}
+					st.XStates += x.xStates
+					st.XTrans += x.xTrans
+					for _, rp := range x.reports {
+						st.Violations++
+						if !keys[rp.Key] && len(keys) < e.maxViol {
+							keys[rp.Key] = true
+							rp.Choices = append([]int(nil), choices...)
+							e.res.Violations = append(e.res.Violations, rp)
+						}
+					}
 					if x.fail != nil {
 						st.Violations++
 						if !keys[x.fail.Key] && len(keys) < e.maxViol {
@@ -234,7 +257,7 @@ func (e *explorer) explore(sc *Scenario) *ScenarioStats {
 		cur = append(append([]int(nil), choices[:i]...), choices[i]+1)
 		ar = append([]int(nil), arity[:i+1]...)
 	}
-	st.Complete = true
+	st.Complete = st.Incomplete == ""
 	return st
 }
 
